@@ -84,13 +84,76 @@ def knot (e : Env) : Nat → Rec
 /-- Attributes, then node numbers. -/
 def prepare (root : Node) : ANode := (number (annotate false root) 0).1
 
+/-- Is this node emitted verbatim as a whole (`@typstyle off`)?  The mark only takes effect where an
+entry point checks it: expressions, patterns, code and math bodies; a code block whose body is marked
+is emitted verbatim as a whole (`convert_code_block`). -/
+def isVerbatimNode (k : Kind) (cs : List ANode) (a : Attrs) : Bool :=
+  (a.disabled && (k.isExpr || k == .math || k == .code || k == .destructuring)) ||
+  (k == .codeBlock && ((cs.find? (·.kind == .code)).map (·.attrs.disabled)).getD false)
+
+mutual
+/-- The token text the source tree prescribes: the kept characters (everything except blanks and
+the delimiters/separators `( ) { } , ; :`) of every leaf that is not a comment or white space, in
+order; a verbatim node counts with its whole source text. -/
+def specToks : ANode → String
+  | .leaf k t _ =>
+    if isCommentKind k || k == .space || k == .parbreak then ""
+    else Pretty.keepOf t
+  | .inner k cs a =>
+    if isVerbatimNode k cs a then Pretty.keepOf (ANode.intoTextL cs) else specToksL cs
+def specToksL : List ANode → String
+  | [] => ""
+  | c :: cs => specToks c ++ specToksL cs
+end
+
+mutual
+/-- No comment leaf and no verbatim node anywhere in the tree. -/
+def ANode.noCommentNoVerbatim : ANode → Bool
+  | .leaf k _ _ => !isCommentKind k
+  | .inner k cs a => !isVerbatimNode k cs a && ANode.noCommentNoVerbatimL cs
+def ANode.noCommentNoVerbatimL : List ANode → Bool
+  | [] => true
+  | c :: cs => ANode.noCommentNoVerbatim c && ANode.noCommentNoVerbatimL cs
+end
+
+mutual
+/-- Space and Parbreak leaves consist of white space only (what the parser produces). -/
+def ANode.blankSpaces : ANode → Bool
+  | .leaf k t _ => !(k == .space || k == .parbreak) || t.toList.all isWs
+  | .inner _ cs _ => ANode.blankSpacesL cs
+def ANode.blankSpacesL : List ANode → Bool
+  | [] => true
+  | c :: cs => ANode.blankSpaces c && ANode.blankSpacesL cs
+end
+
+mutual
+/-- The comment text the source tree prescribes: the non-blank characters of every comment leaf,
+in order (comments inside a verbatim node are part of that node's text, not comments of their own). -/
+def specCmts : ANode → String
+  | .leaf k t _ => if isCommentKind k then String.ofList (t.toList.filter fun c => !isWs c) else ""
+  | .inner k cs a => if isVerbatimNode k cs a then "" else specCmtsL cs
+def specCmtsL : List ANode → String
+  | [] => ""
+  | c :: cs => specCmts c ++ specCmtsL cs
+end
+
 /-- Stages 2+3 of the pipeline for all indent units at once: attributes, then `convert_markup`
-of the root. Returns the document family and the number of entries into the four conversion entry points. -/
+of the root. Returns the document family and the number of entries into the four conversion entry
+points. -/
 def printTwin (e : Env) (root : Node) : Except Reject (Twin.Doc × Nat) :=
   let t := prepare root
   match ((knot e (2 * t.depth + 2)).markup {} t .document).run { limit := t.size } with
   | .ok (d, s) => .ok (d, s.calls)
   | .error r => .error r
+
+/-- Token certificate of a printed family (C01): the token text the family carries by construction
+is the one the tree prescribes.  (Not meaningful with import reordering on: reordering permutes items.) -/
+def tokensCertified (root : Node) (d : Twin.Doc) : Bool :=
+  d.good && d.toks == specToks (prepare root)
+
+/-- Comment certificate of a printed family (C06). -/
+def commentsCertified (root : Node) (d : Twin.Doc) : Bool :=
+  d.good && d.cmts == specCmts (prepare root)
 
 /-- Stages 2+3 at a given configuration: the member of the family at `cfg.tab`. -/
 def printDoc (cfg : Config) (wd : String → Nat) (root : Node) : Except Reject (Pretty.Doc × Nat) :=
